@@ -60,7 +60,8 @@ uint8_t * jls_mrb_alloc(struct jls_mrb_s * self, uint32_t size) {
     uint32_t head = self->head;
     uint32_t tail = self->tail;
 
-    if (size > self->buf_size) {
+    if ((size > self->buf_size) || ((size + 8) > self->buf_size)) {
+        // needs the 4-byte size prefix and must leave room for a 4-byte wrap marker after it
         JLS_LOGE("jls_mrb_alloc too big");
         return NULL;
     }
